@@ -136,20 +136,27 @@ def conv_cases(ck):
     rng = ck.rng
     items = []
     n = 40 if ck.tier == "quick" else 300
+    configs = []
     for t in range(n):
         dims = 3 if t % 4 == 3 else 2
         rf = rng.randrange(1, 4) if dims == 2 else rng.randrange(1, 3)
         rfs = [rf] * dims
         if dims == 3 and t % 8 == 3:
             rfs = [rng.randrange(1, 4) for _ in range(3)]
-        C = rng.randrange(1, 4)
-        depth = rng.randrange(1, 4)
-        K = rng.randrange(1, 4)
+        configs.append((dims, rfs, rng.randrange(1, 4), rng.randrange(1, 4), rng.randrange(1, 4)))
+    # families with EQUAL receptive-field volume x channels but different shapes, built one after the other in this process
+    # (anything shared between layer instances and keyed by the volume alone shows up here)
+    for fam in ([(2, [2, 2], 1), (2, [1, 1], 4)], [(2, [3, 3], 4), (2, [6, 6], 1), (2, [2, 2], 9)], [(2, [2, 2], 4), (2, [4, 4], 1)],
+                [(2, [1, 1], 9), (2, [3, 3], 1)], [(3, [2, 2, 2], 1), (3, [1, 2, 2], 2), (3, [2, 2, 1], 2), (3, [1, 1, 1], 8)],
+                [(3, [1, 2, 3], 1), (3, [3, 2, 1], 1), (3, [1, 1, 2], 3)]):
+        for dims, rfs, C in fam:
+            configs.append((dims, list(rfs), C, rng.randrange(1, 3), 2))
+    for t, (dims, rfs, C, depth, K) in enumerate(configs):
         P = int(np.prod(rfs)) * C
         s = 2 ** depth
         torch.manual_seed(ck.seed * 13 + t)
         log = []
-        kw = dict(in_dim=4 if dims == 2 else 3, device="cpu", channels=C, num_kernels=K, tree_depth=depth,
+        kw = dict(in_dim=max(4 if dims == 2 else 3, max(rfs)), device="cpu", channels=C, num_kernels=K, tree_depth=depth,
                   receptive_field_size=rfs[0] if len(set(rfs)) == 1 else tuple(rfs), connections="random-unique")
         case = {"scheme": "conv-random-unique", "dims": dims, "rf": rfs, "channels": C, "depth": depth, "kernels": K}
         try:
